@@ -18,7 +18,7 @@ ACCOUNT_RE = re.compile(r"^[a-zA-Z0-9_-]+(:[a-zA-Z0-9_-]+)*$")
 PROFILES = {
     "C01": {"neg_balance": 0.25, "overdraft_bounded": 0.3, "save": 0.15, "acct_var": 0.3},
     "C02": {"neg_balance": 0.2, "kept": 0.35},
-    "C03": {"send": 0.8, "sendall": 0.05, "save": 0.08},
+    "C03": {"send": 0.8, "sendall": 0.05, "save": 0.08, "over_literal": 0.02},
     "C04": {"send": 0.5, "sendall": 0.35, "save": 0.05, "depth": 4},
     "C05": {"ddepth": 3, "kept": 0.25, "send": 0.6, "sendall": 0.25},
     "C06": {"send": 0.7, "sendall": 0.1},
@@ -191,6 +191,36 @@ def oracle_C08(case, gen, go, exp):
     return out
 
 
+def oracle_C09(case, gen, go, exp):
+    """every statement sees what the earlier ones left: the metadata at the end is the last write of each entry, and
+    each statement's net effect per account is the reference's (which runs the statements one after the other)"""
+    if exp["outcome"] != "ok" or go["outcome"] != "ok":
+        return []
+    out = []
+    tx = {k: tuple(v) for k, v in (go.get("txMeta") or {}).items()}
+    if tx != {k: tuple(v) for k, v in exp["tx"].items()}:
+        out.append("transaction metadata %s, the last writes are %s" % (tx, exp["tx"]))
+    am = {a: m for a, m in (go.get("accMeta") or {}).items() if m}
+    if am != {a: m for a, m in exp["acc"].items() if m}:
+        out.append("account metadata %s, the last writes are %s" % (am, exp["acc"]))
+    per = stmt_postings(go)
+    if per is not None and len(per) == len(exp["per_stmt"]):
+        for k, ps in enumerate(per):
+            net_g, net_e = {}, {}
+            for s, d, m, a in ps:
+                net_g[(s, a)] = net_g.get((s, a), 0) - int(m)
+                net_g[(d, a)] = net_g.get((d, a), 0) + int(m)
+            for s, d, m, a in exp["per_stmt"][k]:
+                net_e[(s, a)] = net_e.get((s, a), 0) - int(m)
+                net_e[(d, a)] = net_e.get((d, a), 0) + int(m)
+            net_g = {x: v for x, v in net_g.items() if v}
+            net_e = {x: v for x, v in net_e.items() if v}
+            if net_g != net_e:
+                out.append("statement %d: net effect %s, run after its predecessors the reference gives %s" % (k, sorted(net_g.items())[:6], sorted(net_e.items())[:6]))
+                break
+    return out
+
+
 def oracle_C12(case, gen, go, exp):
     out = []
     if go["outcome"] == "panic":
@@ -217,7 +247,7 @@ def oracle_C12(case, gen, go, exp):
 
 
 ORACLES = {"C01": oracle_C01, "C02": oracle_C02, "C03": oracle_C03, "C04": oracle_C04, "C05": oracle_C05,
-           "C07": oracle_C07, "C08": oracle_C08, "C12": oracle_C12}
+           "C07": oracle_C07, "C08": oracle_C08, "C09": oracle_C09, "C12": oracle_C12}
 
 
 def nontrivial(pid, case, gen, go, exp):
